@@ -37,10 +37,26 @@ package timer
 
 // The eager timer fixes each round's deadline the first time the round is timed: re-timing a round never extends it,
 // and the first deadline is the round timeout after the duty start (or after now when no timing is configured).
+// Duties start a fixed fraction into their slot: attestations at 1/3, aggregations and sync contributions at 2/3.
+//@ func getDutyStartDelayWithDuration
+//@ props C04
+//@ pure
+//@ ensures dutyType == core.DutyAttester ==> result == slotDuration / 3
+//@ ensures dutyType == core.DutyAggregator || dutyType == core.DutySyncContribution ==> result == (2 * slotDuration) / 3
+//@ ensures dutyType != core.DutyAttester && dutyType != core.DutyAggregator && dutyType != core.DutySyncContribution ==> result == 0
+
+//@ spec func eagerTimeout(t *doubleEagerLinearRoundTimer, round int64) time.Duration = ite(featureset.Enabled(featureset.ProposalTimeout) && t.duty.Type == core.DutyProposer, proposalRoundTimeout(round), linearRoundTimeout(round))
 //@ func (t *doubleEagerLinearRoundTimer) Timer
 //@ props C04
 //@ assigns t.firstDeadlines
 //@ ensures has(t.firstDeadlines, round)
 //@ ensures has(old(t.firstDeadlines), round) ==> t.firstDeadlines == old(t.firstDeadlines)
 //@ ensures forallk(r, old(t.firstDeadlines), has(t.firstDeadlines, r) && t.firstDeadlines[r] == old(t.firstDeadlines)[r])
+// With slot timing configured the first end-time of a round is the same absolute instant on every node (duty start plus
+// the round's timeout), also when that instant has already passed: a round entered late expires at once, which is what
+// brings members that extended a round and members that did not back into the same round. Without slot timing it is
+// the timeout from now. A round timed again ends one more timeout after its first end-time.
+//@ ensures !has(old(t.firstDeadlines), round) && !t.genesisTime.IsZero() && t.slotDuration > 0 ==> t.firstDeadlines[round] == t.genesisTime.Add(t.slotDuration * time.Duration(t.duty.Slot)).Add(getDutyStartDelayWithDuration(t.duty.Type, t.slotDuration)).Add(eagerTimeout(t, round))
+//@ ensures !has(old(t.firstDeadlines), round) && !(!t.genesisTime.IsZero() && t.slotDuration > 0) ==> t.firstDeadlines[round] == t.clock.Now().Add(eagerTimeout(t, round))
+//@ callreq t.clock.NewTimer: a1 == ite(has(old(t.firstDeadlines), round), old(t.firstDeadlines)[round].Add(eagerTimeout(t, round)), t.firstDeadlines[round]).Sub(t.clock.Now())
 //@ ensures ncalls(t.clock.NewTimer) == 1
